@@ -52,6 +52,24 @@ func genGlyphName(rng *rand.Rand, i int) string {
 			}
 		}
 		return string(b) + fmt.Sprint(i)
+	case 2:
+		// names spelled with multi-byte UTF-8 sequences (every byte is a regular character;
+		// the code points' low bytes are anything, white space and delimiters included)
+		n := 1 + rng.IntN(4)
+		var sb strings.Builder
+		for j := 0; j < n; j++ {
+			switch rng.IntN(4) {
+			case 0:
+				sb.WriteRune([]rune{0x0120, 0x0100, 0x4E00, 0x212F, 0x0128, 0x0129, 0x015B, 0x017B, 0x2025, 0x2028, 0x3000, 0x1F600}[rng.IntN(12)])
+			case 1:
+				sb.WriteRune(rune(0x100 + rng.IntN(0x2000)))
+			case 2:
+				sb.WriteRune(rune(0xA1 + rng.IntN(0x5E)))
+			default:
+				sb.WriteByte(byte('a' + rng.IntN(26)))
+			}
+		}
+		return sb.String() + fmt.Sprint(i)
 	case 1:
 		// number and operator look-alikes; the nine names that the Type 1
 		// CharStrings idiom itself looks up (RD ND def end string currentfile
@@ -213,6 +231,18 @@ func genGlyph(rng *rand.Rand, o *fontOpts) *type1.Glyph {
 			g.VStem = list
 		}
 		o.f("stems forming a stem3 triple")
+	}
+	if rng.IntN(10) == 0 && len(g.HStem) >= 2 {
+		// the same stem listed again (fonts with hint replacement list a stem once per group)
+		g.HStem = append(g.HStem, g.HStem[0], g.HStem[1])
+		if rng.IntN(2) == 0 {
+			g.HStem = append(g.HStem, g.HStem[0], g.HStem[1]+1)
+		}
+		o.f("repeated stem")
+	}
+	if rng.IntN(10) == 0 && len(g.VStem) >= 2 {
+		g.VStem = append(append([]funit.Int16{g.VStem[len(g.VStem)-2], g.VStem[len(g.VStem)-1]}, g.VStem...), g.VStem[0], g.VStem[1])
+		o.f("repeated stem")
 	}
 	if rng.IntN(40) == 0 {
 		g.HStem = append(g.HStem, -32768, 32767, 32767, -32768)
@@ -379,7 +409,40 @@ func genFont(rng *rand.Rand, o *fontOpts) *type1.Font {
 
 	// encoding
 	std := stdEncNamesLib()
-	switch rng.IntN(7) {
+	switch rng.IntN(8) {
+	case 7:
+		// the standard encoding, plus glyphs of this font at codes the standard leaves empty (code 0 among them)
+		f.Encoding = append([]string(nil), std...)
+		var empty []int
+		for i, n := range std {
+			if n == ".notdef" {
+				empty = append(empty, i)
+			}
+		}
+		placed := 0
+		for _, n := range names {
+			if placed >= 3 || len(empty) == 0 {
+				break
+			}
+			if n == ".notdef" || rng.IntN(2) == 0 {
+				continue
+			}
+			at := empty[rng.IntN(len(empty))]
+			if placed == 0 && rng.IntN(2) == 0 {
+				at = 0
+			}
+			f.Encoding[at] = n
+			placed++
+		}
+		if rng.IntN(2) == 0 {
+			// ... and .notdef where the standard glyph is in the font (the short form is not equivalent then)
+			for i, n := range f.Encoding {
+				if _, ok := f.Glyphs[n]; ok && n == std[i] && rng.IntN(4) == 0 {
+					f.Encoding[i] = ".notdef"
+				}
+			}
+		}
+		o.f("encoding = StandardEncoding plus glyphs at empty codes")
 	case 0:
 		f.Encoding = nil
 		o.f("encoding absent")
@@ -704,14 +767,21 @@ func (o *afmOpts) f(s string) {
 func genToken(rng *rand.Rand) string {
 	n := 1 + rng.IntN(10)
 	b := make([]byte, n)
+	high := rng.IntN(4) == 0 // names in ISO Latin-1 or UTF-8 (no byte of which is white space)
 	for i := range b {
 		for {
 			c := byte(33 + rng.IntN(94))
+			if high && rng.IntN(3) == 0 {
+				c = byte(0xA1 + rng.IntN(0x5F))
+			}
 			if c != ';' {
 				b[i] = c
 				break
 			}
 		}
+	}
+	if high && rng.IntN(3) == 0 {
+		return string(b) + string(rune(0x100+rng.IntN(0x80)))
 	}
 	return string(b)
 }
